@@ -8,6 +8,8 @@ const { Rng, hashStr, clip } = require('../lib/util')
 
 const CFG = cfg({ methods: STRING_METHODS, verbosity: 'OFF' })
 const CFG_CHAIN = cfg({ methods: STRING_METHODS, verbosity: 'OFF', chain: true })
+const CFG_CHAIN_COMMENTS = cfg({ methods: STRING_METHODS, verbosity: 'OFF', chain: true, comments: true })
+const CFG_COMMENTS = cfg({ methods: STRING_METHODS, verbosity: 'OFF', comments: true })
 
 // directories of the rewritten files: plain, nested, non-ASCII, blanks and brackets, characters that are special in
 // String.prototype.replace replacement patterns or in regular expressions
@@ -35,6 +37,16 @@ function genModule (rng, opts = {}) {
       sites.multiline = { lo: add(`  throw new Error(m + '\\n    at not a frame (of-${id}:1:1)\\nthird ' + a)`), fn: 'siteMultiline', args: ['"m"'], ctor: 'Error' }
       sites.multiline.hi = sites.multiline.lo
       add('}')
+    }
+    if (opts.markerLines) {
+      // text of the module that reads like a map reference at the start of a line, before the real trailer:
+      // a two-line template literal (the raw line break survives rewriting) and, with comments printed, the leftover
+      // reference of a bundled chunk (valid map, wrong file)
+      add('function emitWithMap(code, encoded) {')
+      add('  return `${code}')
+      add('//# sourceMappingURL=data:application/json;base64,${encoded}`')
+      add('}')
+      if (opts.chain) add('//# sourceMappingURL=data:application/json;base64,' + Buffer.from(JSON.stringify({ version: 3, sources: ['LEFTOVER-WRONG.ts'], names: [], mappings: 'AAAA;AACA;AACA;AACA;AACA;AACA;AACA;AACA;AACA;AACA;AACA;AACA;AACA;AACA;AACA;AACA;AACA;AACA;AACA;AACA;AACA;AACA;AACA;AACA;AACA;AACA;AACA;AACA;AACA;AACA;AACA;AACA;AACA;AACA;AACA;AACA;AACA;AACA;AACA;AACA' })).toString('base64'))
     }
     add('function siteNull(a, n) {')
     add("  const y = a + 'pad'")
@@ -240,15 +252,17 @@ module.exports = {
       const sharedPkg = P.loadPackage() // module-level caches and state persist across files, as in a real process
       for (let i = 0; i < spec.count; i++) {
         const chain = i % 3 === 2
-        const mod = genModule(rng.fork(i), { chain, multilineMessage: i % 4 === 1 })
+        const markerLines = i % 8 >= 5
+        const mod = genModule(rng.fork(i), { chain, multilineMessage: i % 4 === 1, markerLines })
         const file = `/srv/c11/${rng.pick(DIRS)}/mod_${spec.stream}_${i}${rng.pick(['.js', '.js', '.cjs', '', '.min.js'])}`
         const pkg = sharedPkg
-        const rw = new pkg.Rewriter(chain ? CFG_CHAIN : CFG)
+        const config = markerLines ? (chain ? CFG_CHAIN_COMMENTS : CFG_COMMENTS) : (chain ? CFG_CHAIN : CFG)
+        const rw = new pkg.Rewriter(config)
         let resp
         try { resp = rw.rewrite(mod.code, file) } catch (e) { rep.inconclusive.push({ reason: 'rewrite-failed', detail: String(e.message).slice(0, 200) }); continue }
         const counters = { stacks: 0, frames: 0 }
         const seen = new Set()
-        const push = (kind, what) => { const sig = `sites:${kind}${chain ? ':chained' : ''}`; if (seen.has(sig)) return; seen.add(sig); rep.violations.push({ sig, what, witness: { code: mod.code, file, chain, sites: mod.sites, config: chain ? CFG_CHAIN : CFG } }) }
+        const push = (kind, what) => { const sig = `sites:${kind}${chain ? ':chained' : ''}`; if (seen.has(sig)) return; seen.add(sig); rep.violations.push({ sig, what, witness: { code: mod.code, file, chain, sites: mod.sites, config } }) }
         if (!resp.metrics || resp.metrics.status !== 'modified') { push('not-modified', 'generated module was not modified'); continue }
         const res = checkModule(pkg, mod, file, resp, push, counters)
         rep.evaluations += Object.keys(res).length
